@@ -244,9 +244,6 @@ class AMF:
                 acc=bytes([0x2e,psi,sm[2],0xc2,0x11])+len(qos).to_bytes(2,'big')+qos+bytes([6,1,0,100,1,0,100])
                 if s.R.random()<0.5: acc+=bytes([0x59,0x32])
                 s.n_sessions=getattr(s,'n_sessions',0)+1
-                fd=s.cfg.get('flow_desc_len',0); fdie=(bytes([0x79])+fd.to_bytes(2,'big')+bytes(s.R.randrange(256) for _ in range(fd))) if fd else b''
-                acc+=bytes([0x29,5,1])+ue.ip+[fdie, bytes([0x22,4,1,1,2,3])+fdie+bytes([0x25,9,8])+b'internet', bytes([0x22,4,1,1,2,3])+fdie, fdie+bytes([0x25,9,8])+b'internet'][(s.n_sessions-1)%4]   # everything after the Session-AMBR is optional: the PDU address may be the last IE
-                dl=bytes([0x7e,0,0x68,1])+len(acc).to_bytes(2,'big')+acc+bytes([0x12,psi])
                 tt='ngapType.PDUSessionResourceSetupRequestTransferIEs'
                 qf={'QosFlowIdentifier':1,'QosFlowLevelQosParameters':{'QosCharacteristics':{'NonDynamic5QI':{'FiveQI':9}},'AllocationAndRetentionPriority':{'PriorityLevelARP':8,'PreEmptionCapability':0,'PreEmptionVulnerability':0}}}
                 tr=[[ [ie_named(tt,130,0,{'PDUSessionAggregateMaximumBitRateDL':s.R.choice([1000,1<<33,4000000000000]),'PDUSessionAggregateMaximumBitRateUL':1000}),
@@ -254,6 +251,24 @@ class AMF:
                        ie_named(tt,134,0,0),
                        ie_named(tt,136,0,{'List':[qf]})] ]]
                 trb=bytes.fromhex(encode('ngapType.PDUSessionResourceSetupRequestTransfer','valueExt',tr))
+                fd=s.cfg.get('flow_desc_len',0)
+                if s.cfg.get('exact16k'):
+                    # choose the flow-description length so that an open-type value of the NGAP message (the IE value or the
+                    # message value) is EXACTLY a multiple of 16384 octets: its fragmented length ends with the octet 00
+                    import x691
+                    hits=[]
+                    for cand in range(max(fd-120,1),fd+400):
+                        accl=len(acc)+7+[0,17,6,11][(s.n_sessions-1)%4]+3+cand
+                        nasl=4+2+accl+2+7
+                        titem={'PDUSessionID':psi,'PDUSessionNASPDU':OS(bytes(nasl)),'SNSSAI':{'SST':OS(b'\x01'),'SD':OS(b'\x01\x02\x03')},'PDUSessionResourceSetupRequestTransfer':OS(bytes(len(trb)))}
+                        tt0=ies_type_of(1,29); h0=x691.EXACT_HITS
+                        mk_pdu(1,29,0,None,[ie_named(tt0,10,0,ue.amf),ie_named(tt0,85,0,ue.ran),ie_named(tt0,74,0,{'List':[titem]})])
+                        if x691.EXACT_HITS>h0: hits.append(cand)
+                    if hits: fd=hits[min(s.cfg['exact16k']-1,len(hits)-1)]
+                    s.exact16k_fd=fd
+                fdie=(bytes([0x79])+fd.to_bytes(2,'big')+bytes(s.R.randrange(256) for _ in range(fd))) if fd else b''
+                acc+=bytes([0x29,5,1])+ue.ip+[fdie, bytes([0x22,4,1,1,2,3])+fdie+bytes([0x25,9,8])+b'internet', bytes([0x22,4,1,1,2,3])+fdie, fdie+bytes([0x25,9,8])+b'internet'][(s.n_sessions-1)%4]   # everything after the Session-AMBR is optional: the PDU address may be the last IE
+                dl=bytes([0x7e,0,0x68,1])+len(acc).to_bytes(2,'big')+acc+bytes([0x12,psi])
                 t=ies_type_of(1,29)
                 item={'PDUSessionID':psi,'PDUSessionNASPDU':OS(s.protect(ue,dl,2)),'SNSSAI':{'SST':OS(b'\x01'),'SD':OS(b'\x01\x02\x03')},'PDUSessionResourceSetupRequestTransfer':OS(trb)}
                 ies=[ie_named(t,10,0,ue.amf),ie_named(t,85,0,ue.ran),ie_named(t,74,0,{'List':[item]})]
